@@ -23,7 +23,9 @@ def atom_strategy(allow_special):
     gi = st.integers(0, len(SGRID) - 1)
     return st.fixed_dictionaries({
         "el": st.integers(0, 93), "x": st.tuples(gen, gen, gen).map(list), "g": st.tuples(gi, gi, gi).map(list),
-        "special": st.sampled_from([0, 0, 1, 2, 3]) if allow_special else st.just(0),
+        # 0 generic, 1 special (rational grid), 2 special in two coordinates, 3 origin, 4 a general position within 1e-9 .. 5e-6 of
+        # a special one (an atom refined slightly off a mirror plane / axis)
+        "special": st.sampled_from([0, 0, 1, 2, 3, 4]) if allow_special else st.sampled_from([0, 0, 0, 4]),
         "occ": st.one_of(S.fl(0.01, 1.0), st.just(1.0), st.just(0.0)) if allow_special else st.one_of(S.fl(0.01, 1.0), st.just(1.0)),
         "adp": st.sampled_from(["Uiso", "Uani", "none"]), "uiso": S.fl(0.002, 0.1),
         # one atom in eight has a slightly negative Uiso / a non-positive-definite Uani (as refinements do produce): the
@@ -80,6 +82,10 @@ def build(case):
     g = GR.group(no, ch)
     a, b, c = case["abc"]
     cell = [float(x) + 0.0 for x in GR.conforming_cell(g, a, b, c, case["ang"][0], case["ang"][1], case["ang"][2], orth=case["orth"])]
+    if g.crystal_system == "triclinic" and ch != "rhombohedral" and case["op"] % 5 == 0 and not case["orth"]:
+        # a triclinic cell that happens to have three equal angles (and unequal edges)
+        al = min(float(case["ang"][0]), 112.0)
+        cell = [cell[0], cell[1], cell[2], al, al, al]
     cell, cell_arg = S.whole_number_variant(cell, case.get("cell_as", "float-list"))
     G, Gs, V = O.metric(cell)
     astar = np.sqrt(np.diag(Gs))
@@ -111,6 +117,8 @@ def build(case):
             posf = [Fr(k, 9973) for k in a_["x"]]
         elif a_["special"] == 3:
             posf = [Fr(0), Fr(0), Fr(0)]          # an atom at the origin (plus a lattice shift): the classic integer-typed position
+        elif a_["special"] == 4:
+            posf = [SGRID[k] + Fr(1 + (a_["x"][j] * 7919) % 5000, 10 ** 9) for j, k in enumerate(a_["g"])]
         elif a_["special"] == 1:
             posf = [SGRID[k] for k in a_["g"]]
         else:   # special in two coordinates, generic in the third
